@@ -35,6 +35,7 @@ fn main() {
         "compfs" => h::eng_compfs::main(rest),
         "rloop" => h::eng_rloop::main(rest),
         "compw" => h::eng_compw::main(rest),
+        "config" => h::eng_config::main(rest),
         e => {
             eprintln!("unknown engine {e}");
             std::process::exit(2);
